@@ -25,6 +25,7 @@ func RunAll(w *load.World, c *core.Collector) {
 	Purity(w, c)
 	Route(w, c)
 	Fanout(w, c)
+	RetryLoop(w, c)
 	Sorted(w, c)
 	Rank(w, c)
 	Merge(w, c)
